@@ -1,11 +1,14 @@
 """C13 — any input text yields diagnostics or a run, never a crash or a hang."""
+from props import C14
 import os
 import framework as fw
 import bytes_stream
 from props import common_prog
 
-THEOREM_MODULES = ["Hcl.Theorems.C13", "Hcl.Theorems.C11Fuel"]
-THEOREMS = {"Hcl.Theorems.C11Fuel": ["C11_parser_fuel_enough", "C11_parser_fuel_independent"],
+THEOREM_MODULES = ["Hcl.Theorems.C13", "Hcl.Theorems.C11Fuel", "Hcl.Theorems.C14Render", "Hcl.Tie.PinsErrors"]
+THEOREMS = {"Hcl.Theorems.C14Render": ["C14_render_total", "C14_render_ok_iff", "C14_grammar_tokens_ok"],
+            "Hcl.Tie.PinsErrors": ["Tie.PinsErrors.pinFormatForContents", "Tie.PinsErrors.pinFormatTokenList", "Tie.PinsErrors.pinListWithAnd"],
+            "Hcl.Theorems.C11Fuel": ["C11_parser_fuel_enough", "C11_parser_fuel_independent"],
             "Hcl.Theorems.C13": ["C13_construction_no_internal_error", "C13_accepted_runs", "Program_new_np", "resolveConstants_np",
                                  "assignmentsToActions_np", "check_np", "GBuild.sort_ne_panic", "C13_lexer_terminates", "C13_lexer_progress", "C13_render_total", "C13_render_total_y86",
                                  "C13_lookup_total", "C13_preamble_utf8"]}
@@ -119,4 +122,6 @@ def streams(tier, seed):
             {"name": "region", "stream": "region", "count": 10000 if q else 500000, "judge": judge_region},
             {"name": "disasm", "stream": "disasm", "count": 2 if q else 10, "judge": judge_nopanic},
             {"name": "dump", "stream": "dump", "count": 1500 if q else 30000, "judge": judge_dump},
-            {"name": "trace", "stream": "trace", "count": 1500 if q else 50000, "judge": judge_nopanic}]
+            {"name": "trace", "stream": "trace", "count": 1500 if q else 50000, "judge": judge_nopanic},
+            # the text of the diagnostics, byte for byte against the model of errors.rs (as in C14)
+            {"name": "render", "stream": "render", "count": 2000 if q else 80000, "judge": C14.judge_render}]
